@@ -543,6 +543,12 @@ static void run_matrix_sequences(void) {
     static const int SH[][2] = {{2, 3}, {3, 3}, {4, 10}, {4, 12}, {6, 9}, {3, 7}, {7, 3}, {1, 40}, {40, 1}, {5, 5}};
     const int NS = (int)(sizeof SH / sizeof *SH);
     static const int KINDS[3] = {K_BIT, K_U1, K_DOUBLE};
+    static uint8_t STORED[16][32];
+    static int STORED_DIM[16];
+    for (int b = 0; b < NS; b++) {
+        memset(STORED[b], 0, sizeof STORED[b]);
+        STORED_DIM[b] = (int)varintDimensionPairEncode(STORED[b], (size_t)SH[b][0], (size_t)SH[b][1]);
+    }
     for (int a = 0; a < NS; a++) {
         for (int b = 0; b < NS; b++) {
             for (int kii = 0; kii < 6; kii++) {
@@ -564,11 +570,11 @@ static void run_matrix_sequences(void) {
                     size_t total = hl + (kind == K_BIT ? (cells + 7) / 8 : cells * (size_t)ew);
                     int dim;
                     if (which && install) {
-                        uint8_t stored[32];
-                        memset(stored, 0, sizeof stored);
-                        dim = (int)varintDimensionPairEncode(stored, (size_t)R, (size_t)C);
+                        /* the stored header was produced before the first matrix was touched: no library call at all
+                         * happens between the accesses to the first matrix and the accesses to the loaded one */
                         memset(m + hl, 0, 2048 - hl);
-                        memcpy(m, stored, hl);
+                        memcpy(m, STORED[b], hl);
+                        dim = STORED_DIM[b];
                     } else {
                         memset(m, 0, 2048);
                         dim = (int)varintDimensionPairEncode(m, (size_t)R, (size_t)C);
